@@ -166,6 +166,7 @@ type Res struct {
 	HelpTxt string        `json:"-"`
 	Comps   []Tok         `json:"comps"`
 	CompNil bool          `json:"compnil"`
+	Sorted  bool          `json:"sorted"`
 	Exits   []int         `json:"exits"`
 	Raw     string        `json:"-"` // everything observable, for run-to-run comparison (C20)
 }
@@ -183,6 +184,7 @@ type Def struct {
 	Tokens []Tok  `json:"tokens"`
 	L      int    `json:"L"`
 	Disp   bool   `json:"disp"`
+	Comp   bool   `json:"comp"` // completion family: every word sequence is run as a COMP_LINE for bash and zsh
 }
 
 // Case - one case line of a trace file.
